@@ -88,7 +88,7 @@ GROUPS = {"allocation": "proximity", "direction": "proximity",
           "arvi": "indices3", "sipi": "indices3", "ebbi": "indices3",
           "trim": "window", "crop": "window", "regions": "regions",
           "hotspots": "convolution", "convolution_2d": "convolution",
-          "perlin": "perlin", "generate_terrain": "generate_terrain",
+          "perlin": "generators", "generate_terrain": "generators",
           "circle_kernel": "kernels", "annulus_kernel": "kernels", "calc_cellsize": "kernels"}
 for _n in ("cell_stats", "combine", "lesser_frequency", "equal_frequency", "greater_frequency",
            "lowest_position", "highest_position", "popularity", "rank"):
@@ -106,8 +106,9 @@ class Cat:
         return rid
 
     def add(self, family, op, rasters, params=None, backend="numpy", chunks=None, identity="same",
-            private=False, heavy=False, expect_error=None, always=False):
-        e = {"id": len(self.entries), "family": family, "group": GROUPS.get(op, op), "op": op, "params": params or {},
+            private=False, heavy=False, expect_error=None, always=False, group=None):
+        e = {"id": len(self.entries), "family": family, "group": group or GROUPS.get(op, op), "op": op,
+             "params": params or {},
              "rasters": list(rasters), "backend": backend, "chunks": chunks or {},
              "identity": identity, "private": private, "heavy": heavy}
         if expect_error:
@@ -388,13 +389,18 @@ def catalogue_c11(seed, tier, rng):
     nf[H0 - 2, 1] = np.inf
     nf[2, W0 - 2] = -np.inf
     enf = c.raster("elev_f8_nonfinite", _spec(nf, 2.0, 3.0))
-    c.add("classify", "equal_interval", [enf], {"k": 3})
-    c.add("classify", "quantile", [enf], {"k": 3})
-    c.add("classify", "binary", [enf], {"values": [float("inf"), 45.0]})
-    c.add("classify", "reclassify", [enf], {"bins": [40.0, 50.0, 60.0], "new_values": [1.0, 2.0, 3.0]})
-    c.add("terrain", "slope", [enf])
-    c.add("focal", "focal_mean", [enf], {})
-    c.add("focal", "convolution_2d", [enf], {"kernel": KW})
+    G = "one_raster_many_functions"     # the same DataArray object handed to one function after another
+    c.add("classify", "equal_interval", [enf], {"k": 3}, group=G)
+    c.add("classify", "quantile", [enf], {"k": 3}, group=G)
+    c.add("classify", "binary", [enf], {"values": [float("inf"), 45.0]}, group=G)
+    c.add("classify", "reclassify", [enf], {"bins": [40.0, 50.0, 60.0], "new_values": [1.0, 2.0, 3.0]}, group=G)
+    c.add("terrain", "slope", [enf], group=G)
+    c.add("terrain", "curvature", [enf], group=G)
+    c.add("focal", "focal_mean", [enf], {}, group=G)
+    c.add("focal", "convolution_2d", [enf], {"kernel": KW}, group=G)
+    c.add("focal", "hotspots", [enf], {"kernel": K3}, identity="hotspots", group=G)
+    c.add("kernels", "calc_cellsize", [enf], {}, identity="own", group=G)
+    c.add("classify", "natural_breaks", [enf], {"k": 3}, group=G)
     # more than one pending lazy generator result (other seeds)
     c.add("generators", "perlin", [t4], {"seed": 0}, backend="dask", identity="own", heavy=True, chunks={t4: [[3, 3], [4, 4]]})
     c.add("generators", "generate_terrain", [t4], {"seed": 3, "zfactor": 4000}, backend="dask", identity="own",
